@@ -26,7 +26,7 @@ ASSUMPTIONS = [
 ]
 REQUIRED = ['schedules_run', 'preemptions_inside_window', 'loop_blocked_in_idle_wait', 'foreign_fire_woke_loop', 'rlock_double_instances',
             'event_double_instances', 'mechanism_fallback', 'mechanism_Select', 'mechanism_EPoll', 'timer_present', 'generator_task_present',
-            'two_firers', 'second_manager_idling', 'poller_cleaned_up_a_descriptor_closed_behind_its_back']
+            'two_firers', 'second_manager_idling', 'poller_cleaned_up_a_descriptor_closed_behind_its_back', 'event_fired_on_a_component_that_joins_leaves_and_joins_again']
 REQUIRED_OBLIGATIONS = ['NO_LOST_WAKEUP', 'EXACTLY_ONCE', 'THREAD_FIFO', 'LOOP_ENDS_AFTER_STOP']
 WORKER_TIMEOUT = {'quick': 600, 'thorough': 2400}
 ENGINE = 'controlled-scheduler'
@@ -57,6 +57,10 @@ def build(scn, S):
         @handler('stopped')
         def _on_stopped(self, *a):
             st['stop_dispatched'] = True
+
+        @handler('unregistered')
+        def _on_unregistered(self, comp, parent):
+            st.setdefault('unregistered', set()).add(id(comp))
 
     if scn.get('task'):
         class Tasker(BaseComponent):
@@ -122,8 +126,31 @@ def run_schedule(scn, plan=(), seed=None, switch_prob=0.0, record=False):
 
     def firer(i):
         def f():
+            try:
+                g()
+            finally:
+                st.setdefault('firers_finished', set()).add(i)
+
+        def g():
             for seq in range(k):
                 st['fired'][(i, seq)] = 'called'
+                if scn.get('via') == 'detached':
+                    # the event is fired on a component that is not part of the running tree yet; the component then joins (its queue is
+                    # handed over), leaves again once the event has been dispatched, and joins a second time
+                    from circuits import BaseComponent
+                    c = BaseComponent()
+                    c.fire(Event.create('ext', i, seq))
+                    c.register(app)
+                    st['fired'][(i, seq)] = 'returned'
+                    st['seen'] = set(st['dispatched'])
+                    predicate(S, st, 'F%d' % i, 'register-return')
+                    S.block(('cond', lambda: (i, seq) in st['dispatched']), 'firer-waits-for-dispatch')
+                    c.unregister()
+                    # (the announcement is the only sign another thread has that the loop thread is through with the unregistration)
+                    S.block(('cond', lambda: id(c) in st.get('unregistered', ())), 'firer-waits-for-unregistration')
+                    c.register(app)
+                    S.block(('cond', lambda: not len(app) and not len(c)), 'firer-waits-for-queue')
+                    continue
                 if scn.get('via') == 'timer':
                     # the event is not fired: a Timer that will fire it is created and registered from this thread (C09)
                     from circuits import Timer
@@ -138,7 +165,7 @@ def run_schedule(scn, plan=(), seed=None, switch_prob=0.0, record=False):
     def all_done():
         st['seen'] = set(st['dispatched'])
         return all(v == 'returned' for v in st['fired'].values()) and len(st['fired']) == nf * k and \
-            all(key in st['seen'] for key in st['fired'])
+            all(key in st['seen'] for key in st['fired']) and (scn.get('via') != 'detached' or len(st.get('firers_finished', ())) == nf)
 
     def stopper():
         S.block(('cond', all_done), 'stopper-wait')
@@ -231,7 +258,8 @@ def scenarios(tier):
                 {'mech': 'fallback', 'firers': 1, 'events': 1, 'task': True}, {'mech': 'fallback', 'firers': 2, 'events': 2},
                 {'mech': 'Select', 'firers': 1, 'events': 1}, {'mech': 'EPoll', 'firers': 1, 'events': 2, 'timer': True},
                 {'mech': 'fallback', 'firers': 1, 'events': 1, 'second_manager': True},
-                {'mech': 'Select', 'firers': 1, 'events': 2, 'stale_fd': True}, {'mech': 'Poll', 'firers': 1, 'events': 1, 'stale_fd': True}]
+                {'mech': 'Select', 'firers': 1, 'events': 2, 'stale_fd': True}, {'mech': 'Poll', 'firers': 1, 'events': 1, 'stale_fd': True},
+                {'mech': 'fallback', 'firers': 1, 'events': 2, 'via': 'detached'}]
     out = []
     for mech in ['fallback', 'Select', 'Poll', 'EPoll']:
         out.append({'mech': mech, 'firers': 1, 'events': 1})
@@ -240,6 +268,7 @@ def scenarios(tier):
         out.append({'mech': mech, 'firers': 2, 'events': 2})
         out.append({'mech': mech, 'firers': 2, 'events': 3, 'timer': True, 'task': True})
         out.append({'mech': mech, 'firers': 1, 'events': 2, 'second_manager': True})
+        out.append({'mech': mech, 'firers': 2, 'events': 2, 'via': 'detached'})
         if mech != 'fallback':
             out.append({'mech': mech, 'firers': 1, 'events': 2, 'stale_fd': True})
             out.append({'mech': mech, 'firers': 2, 'events': 2, 'stale_fd': True, 'task': True})
@@ -302,6 +331,8 @@ def explore(b, scn, plans_iter, S, in_window):
             b.reached('two_firers')
         if scn.get('second_manager'):
             b.reached('second_manager_idling')
+        if scn.get('via') == 'detached':
+            b.reached('event_fired_on_a_component_that_joins_leaves_and_joins_again')
         if scn.get('stale_fd') and res['loop_blocked']:
             b.reached('poller_cleaned_up_a_descriptor_closed_behind_its_back')
         b.reached('virtual_timeouts', res['virtual_timeouts'])
